@@ -60,8 +60,12 @@ func (s *set[ElementType]) Apply(mutations ds.SetMutations[ElementType]) (applie
 		return appliedMutations
 	}
 
+	verifYield("set-after-update")
+
 	for _, registeredCallback := range registeredCallbacks {
 		if registeredCallback.LockExecution(updateID) {
+			verifYield("set-before-invoke")
+
 			registeredCallback.Invoke(appliedMutations)
 			registeredCallback.UnlockExecution()
 		}
@@ -180,6 +184,8 @@ func (r *readableSet[ElementType]) OnUpdate(callback func(appliedMutations ds.Se
 	defer createdCallback.UnlockExecution()
 
 	r.mutex.Unlock()
+
+	verifYield("set-onupdate-registered")
 
 	if !mutations.IsEmpty() || lo.First(triggerWithInitialZeroValue) {
 		createdCallback.Invoke(mutations)
